@@ -2,7 +2,13 @@
 (***************************************************************************)
 (* Judges recorded evaluations of constant expressions (.dq <expr>).       *)
 (* event: [ast, toks, equs (name -> AST), labels (name -> Nat), pc,        *)
-(*         res \in {"ok","err","panic"}, b (8 bytes, little-endian)]       *)
+(*         res \in {"ok","err","panic"}, b (8 bytes, little-endian),       *)
+(*         via \in {"dq","byte","org"}, n]                                 *)
+(* via = "byte": the expression is the size of a reservation, n the RAM    *)
+(* usage reported; via = "org": it is an origin, n the word address the    *)
+(* next instruction was put at.  Sizes and origins of 0..1000 must come    *)
+(* out as the table's value; what happens to negative and huge ones is the *)
+(* business of other properties (C12), an error value must fail the build. *)
 (* The rendered token sequence must be the specification's rendering of    *)
 (* the tree (only the parentheses the operator table requires), and the    *)
 (* outcome must be the table's value or an error.                          *)
@@ -19,10 +25,13 @@ Expected(e) == Eval(e.ast, [pc |-> e.pc, labels |-> e.labels, sets |-> << >>, eq
 Brief(x) == IF x.un THEN [ok |-> "unspecified"]
             ELSE IF x.ok THEN [ok |-> "ok", b |-> Bytes8(x.v)] ELSE [ok |-> "err"]
 
+SmallSize(v) == ~v.neg /\ Small(v) /\ ToInt(v) <= 1000
 Accept(e, x) ==
   /\ e.toks = Render(e.ast)
   /\ \/ x.un /\ e.res \in {"ok", "err"}          \* left open by the table -- but never a panic
-     \/ x.ok /\ e.res = "ok" /\ e.b = Bytes8(x.v)
+     \/ x.ok /\ e.via = "dq" /\ e.res = "ok" /\ e.b = Bytes8(x.v)
+     \/ x.ok /\ e.via # "dq" /\ SmallSize(x.v) /\ e.res = "ok" /\ e.n = ToInt(x.v)
+     \/ x.ok /\ e.via # "dq" /\ ~SmallSize(x.v) /\ e.res \in {"ok", "err"}
      \/ ~x.ok /\ ~x.un /\ e.res = "err"
 
 Init == l = 1 /\ nbad = 0 /\ nun = 0
